@@ -467,6 +467,21 @@ pub fn rand_event_time_case(rng: &mut Rng, kind: usize) -> Case {
     let cap = rand_cap(rng);
     let base = rand_base(rng);
     let evs = rand_events(rng, d);
+    if kind <= 1 && rng.chance(1, 25) {
+        // a "for ever" window: a duration at the top of the u64 millisecond range, built at a
+        // start instant that is not 0 (start + duration does not fit u64)
+        let huge = *rng.pick(&[u64::MAX, u64::MAX - 1, 1u64 << 63]);
+        let sliding = kind == 0 || rng.bool();
+        let mixed = sliding && kind == 1 && rng.chance(1, 3);
+        return Case::Tw {
+            sliding,
+            start: rng.below(4) as u64,
+            d: huge,
+            cap,
+            base,
+            ops: evs.into_iter().map(|e| (if kind == 0 || (mixed && rng.chance(1, 2)) { TwOp::Record } else { TwOp::Add }, e)).collect(),
+        };
+    }
     match kind {
         0 => Case::Tw {
             sliding: true,
